@@ -511,6 +511,29 @@ def _run_seeded(args):
     shutil.rmtree(d, ignore_errors=True)
 
 
+def _run_benign(args):
+  """A behaviour-preserving refactoring (benign/<id>/patch.diff): the check must not report a violation on it."""
+  bid, prop, root, base_keys = args
+  import subprocess
+  from mmsa import check
+  here = os.path.dirname(os.path.dirname(os.path.abspath(__file__)))
+  patch = os.path.join(here, 'benign', bid, 'patch.diff')
+  d = tempfile.mkdtemp(prefix='mmsa_benign_')
+  try:
+    shutil.copytree(os.path.join(root, 'matched_markets'), os.path.join(d, 'matched_markets'),
+                    ignore=shutil.ignore_patterns('__pycache__', '*.pyc', 'csv', 'notebook', 'tests'))
+    p = subprocess.run(['git', 'apply', '-p1', patch], cwd=d, capture_output=True, text=True)
+    if p.returncode != 0:
+      return (bid, 'na', 'patch does not apply to this tree')
+    code, lines, rep = check.run_property(prop, 'quick', d, write=False, selftest=False)
+    new = [i for i in rep.instances if i.status == 'violation' and '|'.join(map(str, i.key(prop))) not in base_keys]
+    if new:
+      return (bid, 'fail', 'false alarm on a behaviour-preserving refactoring: %s at %s' % (new[0].rule, new[0].loc))
+    return (bid, 'ok', 'silent' if code == 0 else 'undecided (exit 2), no violation')
+  finally:
+    shutil.rmtree(d, ignore_errors=True)
+
+
 def run(prop, root, jobs=16):
   from mmsa import check
   V = corpus()
@@ -555,6 +578,21 @@ def run(prop, root, jobs=16):
           out['not_applicable'].append('seeded/%s (%s)' % (sid, msg))
         else:
           out['failed'].append('seeded/%s: %s' % (sid, msg))
+  # behaviour-preserving refactorings written by independent sub-agents: no check may raise an alarm on any of them
+  bdir = os.path.join(here, 'benign')
+  btasks = [(b, prop, root, base_keys) for b in sorted(os.listdir(bdir))] if os.path.isdir(bdir) else []
+  out['benign_refactorings'] = len(btasks)
+  if btasks:
+    with ProcessPoolExecutor(min(jobs, len(btasks))) as ex:
+      for bid, status, msg in ex.map(_run_benign, btasks):
+        if status != 'ok':
+          out['details'].append({'variant': 'benign/' + bid, 'kind': 'benign-refactoring', 'status': status, 'result': msg})
+        if status == 'ok':
+          out['passed'] += 1
+        elif status == 'na':
+          out['not_applicable'].append('benign/%s (%s)' % (bid, msg))
+        else:
+          out['failed'].append('benign/%s: %s' % (bid, msg))
   # on the tree being checked every variant should be applicable; tolerate up to a third being N/A (refactored tree)
   if tasks and len(out['not_applicable']) > len(tasks) // 3:
     out['failed'].append('%d of %d variants not applicable: the corpus no longer matches the tree' % (len(out['not_applicable']), len(tasks)))
